@@ -16,8 +16,16 @@
 
   `wf`, `ignFaces`, `noConstParam` are executable (`Bool`) predicates defined in `Lemmas/MatchSound.lean`;
   every clause of `wf` has a counterexample below showing that it cannot be dropped.
+
+  Completeness (`Lemmas/MatchComplete.lean`): `C09_complete_partial` — on the fragment `frag θ a` (no panicking
+  kind, non-empty wrappers, well-shaped `Lifetime`/`OptWild`/`QSelf`/`Expr::Binary`, θ moving no parameter
+  beneath a `QSelf`), for a θ that induces one value per parameter name (`coherent θ a`) and a
+  presentation-free target (`plain b`), `erase (inst θ a) = erase b` implies that the matcher answers `yes`,
+  with a substitution made of the values θ induces (`occVals θ a`). `C09_complete_normalised` is the same for
+  an arbitrary `b` after normalising it with `erase`. Each hypothesis has a counterexample below.
 -/
 import DisjointImpls.Lemmas.MatchSound
+import DisjointImpls.Lemmas.MatchComplete
 namespace DI
 
 /-! ## Theorems -/
@@ -55,6 +63,37 @@ theorem C09_sound_wf (a b : T) (σ : Subst) (ha : wf a = true) (hb : wf b = true
     sup a b = .yes σ false → erase (inst σ a) = erase b := by
   intro h
   rw [(supS_good a (stripTop b) σ ha h).2 (wf_stripTop b hb) hf, erase_stripTop]
+
+/-! ## Completeness
+
+The full statement
+`∀ a b θ, <side conditions> → erase (inst θ a) = erase b → ∃ σ l, sup a b = .yes σ l`
+is proved for the side conditions `frag θ a`, `coherent θ a`, `plain b` (all executable). -/
+
+/-- completeness on the fragment: whenever a coherent θ with `erase (inst θ a) = erase b` exists, the matcher
+    answers yes, and every entry it reports is a value induced by θ at some parameter occurrence of `a` -/
+theorem C09_complete_partial (a b : T) (θ : Subst) (hf : frag θ a = true) (hc : coherent θ a = true)
+    (hb : plain b = true) :
+    erase (inst θ a) = erase b → ∃ σ l, sup a b = .yes σ l ∧ ∀ p ∈ σ, p ∈ occVals θ a := by
+  intro he
+  rw [plain_erase b hb] at he
+  unfold sup
+  rw [plain_stripTop hb]
+  exact supS_complete θ a hf (· ∈ occVals θ a) (functional_of_functionalB hc) (fun _ h => h) b hb he
+
+/-- the same for an arbitrary target, normalised with `erase` first -/
+theorem C09_complete_normalised (a b : T) (θ : Subst) (hf : frag θ a = true) (hc : coherent θ a = true) :
+    erase (inst θ a) = erase b → ∃ σ l, sup a (erase b) = .yes σ l ∧ ∀ p ∈ σ, p ∈ occVals θ a := by
+  intro he
+  exact C09_complete_partial a (erase b) θ hf hc (plain_erase_self b) (by rw [erase_erase]; exact he)
+
+/-- with soundness: on the fragment, for well-formed `a` and a presentation-free `b`, an exact answer is
+    a matcher for `b`, and one exists whenever any substitution does -/
+theorem C09_complete_exact (a b : T) (θ : Subst) (hf : frag θ a = true) (hc : coherent θ a = true)
+    (hb : plain b = true) (he : erase (inst θ a) = erase b) :
+    ∃ σ l, sup a b = .yes σ l ∧ (σ.map Prod.fst).Nodup :=
+  let ⟨σ, l, h, _⟩ := C09_complete_partial a b θ hf hc hb he
+  ⟨σ, l, h, C09_functional a b σ l h⟩
 
 /-! ## Counterexamples to the unconditional statements
 
@@ -167,6 +206,68 @@ example :
       .node "Type::Ref" ["mut"] [.node "Type::Group" [] [leaf "u8"]]]]
     wf a = true ∧ wf b = true ∧ ignFaces a (stripTop b) = true ∧ noConstParam b = true ∧
     sup a b = .yes [("_ŠČ0", .ty (leaf "u8"))] false := by decide
+
+/-! ### Completeness: every hypothesis of `C09_complete_partial` is needed -/
+
+/-- `coherent`: one name used for a type parameter left in place and for a const argument -/
+theorem C09_complete_counterexample_coherent :
+    let a : T := .node "X" [] [.tparam "n", .node "GenericArgument::Type" [] [.tparam "n"]]
+    let b : T := .node "X" [] [.tparam "n", .node "GenericArgument::Const" [] [leaf "E"]]
+    let θ : Subst := [("n", .ex (leaf "E"))]
+    frag θ a = true ∧ plain b = true ∧ erase (inst θ a) = erase b ∧ coherent θ a = false ∧ sup a b = .no := by
+  decide
+
+/-- `coherent`: a parameter that also occurs as a trait path (non-type position) must not be moved -/
+theorem C09_complete_counterexample_coherent_path :
+    let pth : T := .node "Path" [] [.node "IgnL" [] [leaf "None"],
+      .node "List" [] [.node "PathSegment" [] [.node "Ident" ["_ŠČ0"] [], leaf "PathArguments::None"]]]
+    let a : T := .node "X" [] [pth, .tparam "_ŠČ0"]
+    let b : T := .node "X" [] [pth, leaf "u8"]
+    let θ : Subst := [("_ŠČ0", .ty (leaf "u8"))]
+    frag θ a = true ∧ plain b = true ∧ erase (inst θ a) = erase b ∧ coherent θ a = false ∧ sup a b = .no := by
+  with_unfolding_all decide
+
+/-- `plain b`: two occurrences of a parameter facing sub-terms equal only modulo presentation (`(u8)` / `u8`) -/
+theorem C09_complete_counterexample_plain :
+    let a : T := .node "X" [] [.tparam "n", .tparam "n"]
+    let b : T := .node "X" [] [.node "Tup" [] [.node "Type::Paren" [] [leaf "u8"]], .node "Tup" [] [leaf "u8"]]
+    let θ : Subst := [("n", .ty (.node "Tup" [] [leaf "u8"]))]
+    frag θ a = true ∧ coherent θ a = true ∧ plain b = false ∧ erase (inst θ a) = erase b ∧ sup a b = .no ∧
+    (∃ σ l, sup a (erase b) = .yes σ l) := by
+  refine ⟨by decide, by decide, by decide, by decide, by decide, _, _, (by decide : sup _ _ = .yes [("n", .ty (.node "Tup" [] [leaf "u8"]))] false)⟩
+
+/-- `frag`: a kind whose arm is `unimplemented!()` -/
+theorem C09_complete_counterexample_panic :
+    frag [] (leaf "Constraint") = false ∧ erase (inst [] (leaf "Constraint")) = erase (leaf "Constraint") ∧
+    sup (leaf "Constraint") (leaf "Constraint") = .panic := by decide
+
+/-- `frag`: θ moves a parameter beneath a `QSelf` -/
+theorem C09_complete_counterexample_qself :
+    let a : T := .node "QSelf" [] [.tparam "n"]
+    let θ : Subst := [("n", .ty (leaf "u8"))]
+    frag θ a = false ∧ coherent θ a = true ∧ erase (inst θ a) = erase (.node "QSelf" [] [leaf "u8"]) ∧
+    sup a (.node "QSelf" [] [leaf "u8"]) = .no := by decide
+
+/-- `frag`: an empty transparent wrapper, a misshaped `Lifetime`, `OptWild` and `Expr::Binary` are rejected
+    even against themselves -/
+theorem C09_complete_counterexample_shapes :
+    (frag [] (leaf "Type::Paren") = false ∧ erase (leaf "Type::Paren") = erase (leaf "Ign") ∧
+      sup (leaf "Type::Paren") (leaf "Ign") = .no) ∧
+    (frag [] (.node "Lifetime" ["a"] []) = false ∧ sup (.node "Lifetime" ["a"] []) (.node "Lifetime" ["a"] []) = .no) ∧
+    (frag [] (leaf "OptWild") = false ∧ sup (leaf "OptWild") (leaf "OptWild") = .no) ∧
+    (frag [] (leaf "Expr::Binary") = false ∧ sup (leaf "Expr::Binary") (leaf "Expr::Binary") = .no) := by decide
+
+/-- non-vacuity of `C09_complete_partial`: `(_ŠČ0, &mut (_ŠČ0), <_ŠČ1 as Tr>::A)`-like pattern with an ignored
+    child, a wrapper, a `QSelf` whose parameter stays, and a repeated parameter -/
+example :
+    let a : T := .node "Type::Tuple" [] [.node "Ign" [] [leaf "A1"], .tparam "_ŠČ0",
+      .node "Type::Paren" [] [.node "Type::Ref" ["mut"] [.tparam "_ŠČ0"]],
+      .node "Type::Path" [] [.node "QSelf" [] [.tparam "_ŠČ1", leaf "1"], leaf "P"]]
+    let b : T := .node "Type::Tuple" [] [leaf "Ign", leaf "u8", .node "Type::Ref" ["mut"] [leaf "u8"],
+      .node "Type::Path" [] [.node "QSelf" [] [.tparam "_ŠČ1", leaf "1"], leaf "P"]]
+    let θ : Subst := [("_ŠČ0", .ty (leaf "u8"))]
+    frag θ a = true ∧ coherent θ a = true ∧ plain b = true ∧ erase (inst θ a) = erase b ∧
+    sup a b = .yes [("_ŠČ0", .ty (leaf "u8")), ("_ŠČ1", .identity)] false := by decide
 
 end Counterexamples
 
